@@ -238,5 +238,16 @@ func check(c Case, st *core.Stats) error {
 	return nil
 }
 
-func TestC19(t *testing.T)       { core.RunPre(t, "C19", enumerated(), genCase, check) }
-func TestC19Replay(t *testing.T) { core.Replay(t, "C19", check) }
+func TestC19(t *testing.T)       { core.RunPre(t, "C19", enumerated(), genCase, checkDiff) }
+func TestC19Replay(t *testing.T) { core.Replay(t, "C19", checkDiff) }
+
+// checkDiff: Context.Reduce is also compared with normalize of Python's decimal module.
+func checkDiff(c Case, st *core.Stats) error {
+	if err := check(c, st); err != nil {
+		return err
+	}
+	if c.Kind != "ctxreduce" {
+		return nil
+	}
+	return arith.DiffExec(arith.Case{Op: "reduce", Ctx: c.Ctx, X: c.X, Y: core.Dec{Coeff: "0"}}, arith.DiffOpts{Value: true, Flags: true}, 1, st)
+}
